@@ -26,12 +26,30 @@ vars == <<l, st, nviol, cov>>
 ToSets(ss) == [ i \in DOMAIN ss |-> Range(ss[i]) ]
 
 St0 == [ scn |-> "", n |-> 0, reads |-> <<>>, writes |-> <<>>, ue |-> <<>>, calls |-> <<>>,
-         hasBuilt |-> FALSE, built |-> <<>>, E |-> {}, C |-> {}, UC |-> {},
+         hasBuilt |-> FALSE, built |-> <<>>, E |-> {},
+         conf |-> FALSE,                  \* the declarations contain a conflicting pair
+         multi |-> FALSE,                 \* more than one run in this scenario: keep per-run observation sequences
          giNodes |-> <<>>, giEdges |-> <<>>,
          runs |-> <<>>, saved |-> <<>>, mode |-> "" ]
 
+(***************************************************************************)
+(* Large per-scenario data derived from the `build` event (closures,        *)
+(* predecessor / successor maps) lives in TLC register 2, not in the state: *)
+(* it is a function of the trace prefix, the search is a single path        *)
+(* (-workers 1), and keeping thousands of pairs out of the state keeps      *)
+(* fingerprinting linear in the trace.                                      *)
+(***************************************************************************)
+D == TLCGet(2)
+D0 == [C |-> {}, UC |-> {}, PM |-> <<>>, SM |-> <<>>]
+DerivedOf(s, e) ==
+  LET n == s.n
+      E == PairsOfSeq(e.edges)
+  IN [ C  |-> ClosureAny(n, E), UC |-> ClosureAny(n, PairsOfSeq(s.ue)),
+       PM |-> [f \in 1..n |-> Preds(E, f)], SM |-> [f \in 1..n |-> Succs(E, f)] ]
+
 Run0(e) == [ cfg |-> e, started |-> <<>>, ended |-> {}, failed |-> {}, failedSeq |-> <<>>,
              sig |-> FALSE, afterSig |-> 0, aborted |-> FALSE, returned |-> FALSE,
+             pulls |-> 0, pullsAfterSig |-> 0,      \* hook `ready_recv`: functions handed out by the ready stream
              pendingOpen |-> FALSE, sEnded |-> FALSE, intSeen |-> FALSE, obs |-> <<>> ]
 
 (* the Props-level observation of a run *)
@@ -49,12 +67,15 @@ SetRun(s, r, R) == [s EXCEPT !.runs = [s.runs EXCEPT ![r] = R]]
 (* projection of an event for run-by-run comparison: drop the run id *)
 Proj(e) == [ f \in (DOMAIN e) \ {"run"} |-> e[f] ]
 Log(R, e) == [R EXCEPT !.obs = Append(@, Proj(e))]
+LogIf(s, R, e) == IF s.multi THEN Log(R, e) ELSE R
 
 ---------------------------------------------------------------------------
 (* builder events                                                          *)
 
 OnReset(s, e) ==
-  [ st |-> [St0 EXCEPT !.scn = e.scn, !.n = e.n, !.reads = ToSets(e.reads), !.writes = ToSets(e.writes)],
+  [ st |-> [St0 EXCEPT !.scn = e.scn, !.n = e.n, !.reads = ToSets(e.reads), !.writes = ToSets(e.writes),
+                       !.conf = (ConflictPairs(e.n, ToSets(e.reads), ToSets(e.writes)) # {}),
+                       !.multi = ("multi" \in DOMAIN e /\ e.multi)],
     v  |-> <<>> ]
 
 OnAddFn(s, e) == [ st |-> s, v |-> If(e.id = e.want, "C11", "add_fn returned another id") ]
@@ -78,15 +99,17 @@ OnBuild(s, e) ==
     LET n     == s.n
         built == e.edges
         E     == PairsOfSeq(built)
-        C     == Closure(n, E)
-        UC    == Closure(n, PairsOfSeq(s.ue))
+        dag   == IsDag(n, E)
+        dv    == D                               \* set from DerivedOf(s, e) by Next before this is evaluated
+        C     == dv.C
+        UC    == dv.UC
         rank  == Ranks(n, s.ue)
         inRange == \A i \in DOMAIN built : built[i][1] \in 1..n /\ built[i][2] \in 1..n /\ built[i][3] \in Kinds
     IN
-    [ st |-> [s EXCEPT !.hasBuilt = TRUE, !.built = built, !.E = E, !.C = C, !.UC = UC],
+    [ st |-> [s EXCEPT !.hasBuilt = TRUE, !.built = built, !.E = E],
       v  |-> IF ~inRange THEN <<V("C11", "edge endpoints or kind out of range")>> ELSE
              If(e.ids = [i \in 1..n |-> i], "C11", "functions not under their FnIds")
-          \o If(\A a \in 1..n : <<a, a>> \notin C, "C11", "built graph is cyclic")
+          \o If(dag, "C11", "built graph is cyclic")
           \o If(C11_KeepsUserEdges(built, s.ue), "C11", "user edges not kept")
           \o If(C11_DataOnlyBetweenConflicting(built, s.reads, s.writes), "C11", "data edge between non-conflicting")
           \o If(C01_ConflictOrdered(n, s.reads, s.writes, C), "C11", "conflicting pair not joined by a path")
@@ -137,7 +160,7 @@ OnGiIter(s, e) ==
 (* streaming calls                                                         *)
 
 OnCall(s, e) ==
-  [ st |-> [s EXCEPT !.runs = Append(@, Log(Run0(e), e))],
+  [ st |-> [s EXCEPT !.runs = Append(@, LogIf(s, Run0(e), e))],
     v  |-> If(e.run = Len(s.runs) + 1, "DRIFT", "run ids out of order") ]
 
 (* a function is handed to the caller: `start` of a call, item of a stream *)
@@ -151,18 +174,24 @@ HandOut(s, r, R0, f) ==
   [ R |-> R,
     v |-> If(f \in 1..s.n, "C03", "unknown function handed out")
        \o If(C01_HandOut(s.reads, s.writes, f, inflight), "C01", "conflicting functions in flight")
-       \o If(C02_HandOut(s.n, s.UC, o.order, f, R0.ended), "C02", "handed out before a dependency finished")
+       \o If(C02_HandOut(s.n, D.UC, o.order, f, R0.ended), "C02", "handed out before a dependency finished")
        \o If(C03_HandOut(f, R0.started), "C03", "handed out twice")
-       \o (IF o.api = "try_for_each" THEN If(C07_HandOut(s.C, o.order, f, R0.failed), "C07", "started after a failed predecessor")
+       \o (IF o.api = "try_for_each" THEN If(C07_HandOut(D.C, o.order, f, R0.failed), "C07", "started after a failed predecessor")
            ELSE IF o.api = "try_fold" THEN If(C07_FoldNoneAfter(R0.failed), "C07", "try_fold invoked a function after an error")
            ELSE <<>>)
-       \o If(C08_AfterSignal(o), "C08", "too many functions after the signal")
+       \o (IF C08_AfterSignal(o) THEN <<>>
+           \* With fn_graph's own `ready_recv` events in the trace the monitor can tell WHERE the bound broke:
+           \* if the ready stream handed out no more than the bound after the signal, the surplus function was
+           \* pulled before the signal and only got its first poll after it (signal sent in the middle of a poll).
+           ELSE IF R0.pulls > 0 /\ C08_AfterSignal([o EXCEPT !.afterSig = R0.pullsAfterSig])
+                THEN <<V("C08", "started after the signal although handed out before it")>>
+                ELSE <<V("C08", "too many functions after the signal")>>)
        \o If(C08_PreSignal(o), "C08", "too many functions with a pending signal")
        \o If(C10_HandOut(o, InFlight(o)), "C10", "limit exceeded") ]
 
 OnStart(s, e) ==
   LET r == e.run  h == HandOut(s, r, s.runs[r], e.f) IN
-  [ st |-> SetRun(s, r, Log(h.R, e)),
+  [ st |-> SetRun(s, r, LogIf(s, h.R, e)),
     v  |-> h.v \o If(~s.runs[r].returned, "C04", "function started after the call returned") ]
 
 OnEnd(s, e) ==
@@ -170,27 +199,33 @@ OnEnd(s, e) ==
       R == [R0 EXCEPT !.ended = @ \cup {e.f},
                       !.failed = IF e.ok THEN @ ELSE @ \cup {e.f},
                       !.failedSeq = IF e.ok THEN @ ELSE Append(@, e.f)]
-  IN [ st |-> SetRun(s, r, Log(R, e)), v |-> <<>> ]
+  IN [ st |-> SetRun(s, r, LogIf(s, R, e)), v |-> <<>> ]
 
 (* a started user future was dropped without completing *)
 OnCancel(s, e) ==
   LET r == e.run  R0 == s.runs[r]
       R == [R0 EXCEPT !.ended = @ \cup {e.f}]
-  IN [ st |-> SetRun(s, r, Log(R, e)),
+  IN [ st |-> SetRun(s, r, LogIf(s, R, e)),
        v  |-> If(R0.aborted, "C04", "a started function was dropped before it completed") ]
 
 OnSignal(s, e) ==
   LET r == e.run  R == [s.runs[r] EXCEPT !.sig = @ \/ e.sent] IN
-  [ st |-> SetRun(s, r, Log(R, e)), v |-> <<>> ]
+  [ st |-> SetRun(s, r, LogIf(s, R, e)), v |-> <<>> ]
+
+(* the edges that can matter for "is every unstarted function still blocked": those into unstarted functions *)
+EdgesInto(s, order, U) ==
+  IF order = "fwd" THEN UNION { { <<p, f>> : p \in D.PM[f] } : f \in U }
+  ELSE UNION { { <<f, q>> : q \in D.SM[f] } : f \in U }
 
 OnPoll(s, e) ==
   LET r == e.run  R == s.runs[r]  o == Obs(s, R)
       idle == e.res = "pending" /\ ~e.woken
   IN
-  [ st |-> SetRun(s, r, Log(R, e)),
+  [ st |-> SetRun(s, r, LogIf(s, R, e)),
     v  |-> If(C04_NoDeadlock(idle, FALSE, InFlight(o)), "C04", "pending, not woken, nothing in flight")
         \o (IF idle /\ C06_Applies(o)
-            THEN If(C06_Eager(s.n, s.E, o.order, Range(R.started), R.ended), "C06", "idle with a startable function")
+            THEN If(C06_Eager(s.n, EdgesInto(s, o.order, (1..s.n) \ Range(R.started)), o.order, Range(R.started), R.ended),
+                    "C06", "idle with a startable function")
             ELSE <<>>)
         \o If(Range(e.inflight) = InFlight(o), "DRIFT", "harness in-flight set differs") ]
 
@@ -199,7 +234,7 @@ OnReturn(s, e) ==
       R == [R0 EXCEPT !.returned = TRUE]
       foldErr == e.kind = "fold_err"
   IN
-  [ st |-> SetRun(s, r, Log(R, e)),
+  [ st |-> SetRun(s, r, LogIf(s, R, e)),
     v  |-> If(C04_ReturnClean(InFlight(o)), "C04", "returned with functions in flight")
         \o If(C03_AtEnd(o), "C03", "clean run did not run every function once")
         \o (IF o.api = "try_for_each"
@@ -218,7 +253,7 @@ OnReturn(s, e) ==
 
 OnAbort(s, e) ==
   LET r == e.run  R == [s.runs[r] EXCEPT !.aborted = TRUE] IN
-  [ st |-> SetRun(s, r, Log(R, e)), v |-> <<>> ]
+  [ st |-> SetRun(s, r, LogIf(s, R, e)), v |-> <<>> ]
 
 OnSpoll(s, e) ==
   LET r == e.run  R0 == s.runs[r]  o0 == Obs(s, R0)
@@ -227,21 +262,22 @@ OnSpoll(s, e) ==
   IF e.res = "item" THEN
     LET h  == IF e.f # 0 THEN HandOut(s, r, R0, e.f) ELSE [R |-> R0, v |-> <<>>]
         R  == [h.R EXCEPT !.pendingOpen = FALSE, !.intSeen = @ \/ e.interrupted]
-    IN [ st |-> SetRun(s, r, Log(R, e)),
+    IN [ st |-> SetRun(s, r, LogIf(s, R, e)),
          v  |-> h.v
              \o If(~R0.sEnded, "C05", "item after the stream ended")
              \o If(~R0.intSeen, "C08", "stream did not end right after the Interrupted item")
              \o If(e.f # 0 \/ e.interrupted, "C05", "item without a function") ]
   ELSE IF e.res = "pending" THEN
     LET R == [R0 EXCEPT !.pendingOpen = TRUE] IN
-    [ st |-> SetRun(s, r, Log(R, e)),
+    [ st |-> SetRun(s, r, LogIf(s, R, e)),
       v  |-> If(C05_NoPendingWhenAll(s.n, yielded) \/ R0.intSeen, "C05", "pending although every function was yielded")
           \o If(~R0.intSeen, "C08", "stream did not end right after the Interrupted item")
           \o If(~R0.sEnded, "C05", "pending after the stream ended")
-          \o If(C05_NoStall(s.n, s.E, o0.order, yielded, R0.ended, e.woken), "C05", "pending, unblocked function, no wake-up") ]
+          \o If(C05_NoStall(s.n, EdgesInto(s, o0.order, (1..s.n) \ yielded), o0.order, yielded, R0.ended, e.woken),
+                "C05", "pending, unblocked function, no wake-up") ]
   ELSE
     LET R == [R0 EXCEPT !.pendingOpen = FALSE, !.sEnded = TRUE, !.returned = TRUE] IN
-    [ st |-> SetRun(s, r, Log(R, e)),
+    [ st |-> SetRun(s, r, LogIf(s, R, e)),
       v  |-> If(C05_EndOnlyWhenAll(s.n, yielded, R0.intSeen), "C05", "stream ended before every function was yielded")
           \o If(C03_AtEnd(o0), "C03", "clean stream did not yield every function once") ]
 
@@ -249,9 +285,9 @@ OnDropRef(s, e) ==
   LET r == e.run  R0 == s.runs[r]  o0 == Obs(s, R0)
       R == [R0 EXCEPT !.ended = @ \cup {e.f}]
   IN
-  [ st |-> SetRun(s, r, Log(R, e)),
+  [ st |-> SetRun(s, r, LogIf(s, R, e)),
     v  |-> IF R0.pendingOpen /\ ~R0.sEnded /\ ~R0.aborted
-           THEN If(C05_NoStall(s.n, s.E, o0.order, Range(R.started), R.ended, e.woken),
+           THEN If(C05_NoStall(s.n, EdgesInto(s, o0.order, (1..s.n) \ Range(R.started)), o0.order, Range(R.started), R.ended, e.woken),
                    "C05", "FnRef dropped, function unblocked, no wake-up")
            ELSE <<>> ]
 
@@ -277,8 +313,14 @@ OnFreshEnd(s, e) ==
               "run behaves differently from the same run on a fresh graph") ]
 
 ---------------------------------------------------------------------------
+OnReadyRecv(s, e) ==
+  LET r == e.run  R0 == s.runs[r]
+      R == [R0 EXCEPT !.pulls = @ + 1, !.pullsAfterSig = IF R0.sig THEN @ + 1 ELSE @]
+  IN [ st |-> SetRun(s, r, R), v |-> <<>> ]
+
 Apply(s, e) ==
-  IF "hook" \in DOMAIN e THEN [st |-> s, v |-> <<>>]
+  IF "hook" \in DOMAIN e
+  THEN (IF e.ev = "ready_recv" /\ HasRun(s, e) THEN OnReadyRecv(s, e) ELSE [st |-> s, v |-> <<>>])
   ELSE CASE e.ev = "reset"         -> OnReset(s, e)
          [] e.ev = "add_fn"        -> OnAddFn(s, e)
          [] e.ev = "add_edge"      -> OnAddEdge(s, e)
@@ -311,9 +353,9 @@ RunFlags(s, R, f) ==
   LET o == Obs(s, R) IN
      {"handout"}
   \cup (IF InFlight(o) # {} THEN {"handout_concurrent"} ELSE {})
-  \cup (IF \E g \in InFlight(o) : <<f, g>> \in s.C \/ <<g, f>> \in s.C THEN {"handout_related_inflight"} ELSE {})
-  \cup (IF ConflictPairs(s.n, s.reads, s.writes) # {} THEN {"handout_conflict_graph"} ELSE {})
-  \cup (IF \E a \in 1..s.n : DirBefore(s.UC, o.order, a, f) THEN {"handout_dependent"} ELSE {})
+  \cup (IF \E g \in InFlight(o) : <<f, g>> \in D.C \/ <<g, f>> \in D.C THEN {"handout_related_inflight"} ELSE {})
+  \cup (IF s.conf THEN {"handout_conflict_graph"} ELSE {})
+  \cup (IF \E a \in 1..s.n : DirBefore(D.UC, o.order, a, f) THEN {"handout_dependent"} ELSE {})
   \cup (IF R.sig \/ R.cfg.pre_signal THEN {"handout_after_signal"} ELSE {})
   \cup (IF R.failed # {} THEN {"handout_after_failure"} ELSE {})
   \cup (IF R.cfg.limit >= 1 THEN {"handout_limited"} ELSE {})
@@ -345,7 +387,7 @@ Flags(s, e) ==
               \cup (IF Len(s.runs) > 1 THEN {"return_multi"} ELSE {})
          [] e.ev = "build" ->
                  {"build"}
-              \cup (IF ConflictPairs(s.n, s.reads, s.writes) # {} THEN {"build_conflict"} ELSE {})
+              \cup (IF s.conf THEN {"build_conflict"} ELSE {})
               \cup (IF \E i \in DOMAIN e.edges : e.edges[i][3] = "data" THEN {"build_data_edge"} ELSE {})
               \cup (IF s.ue # <<>> THEN {"build_user_edges"} ELSE {})
               \cup (IF s.n >= 8 THEN {"build_large"} ELSE {})
@@ -381,10 +423,12 @@ Report(s, line, v) ==
   \A i \in DOMAIN v :
     PrintT("VIOL " \o ToJson([p |-> v[i].p, scn |-> s.scn, line |-> line, msg |-> v[i].msg]))
 
-Init == l = 1 /\ st = St0 /\ nviol = 0 /\ cov = Cov0
+Init == l = 1 /\ st = St0 /\ nviol = 0 /\ cov = Cov0 /\ TLCSet(2, D0)
 
 Next ==
   /\ l <= Len(Rec)
+  /\ (Rec[l].ev = "reset" => TLCSet(2, D0))
+  /\ (Rec[l].ev = "build" /\ "hook" \notin DOMAIN Rec[l] /\ Rec[l].panic = "" => TLCSet(2, DerivedOf(st, Rec[l])))
   /\ LET r == Apply(st, Rec[l]) IN
        /\ Report(IF Rec[l].ev = "reset" THEN r.st ELSE st, l, r.v)
        /\ st' = r.st
